@@ -289,7 +289,7 @@ func (p *Program) Explore(fns []*ssa.Function, cfgs []Config, opt ExploreOpts) (
 					hs.Funcs[f.String()] += n
 				}
 				switch res.Status {
-				case "unsupported", "budget", "unknown":
+				case "unsupported", "unknown":
 					hs.Msgs[res.Status+": "+res.Msg]++
 				}
 				if i.ForkSites != nil {
@@ -327,7 +327,7 @@ func (p *Program) Explore(fns []*ssa.Function, cfgs []Config, opt ExploreOpts) (
 				}
 				// events that end a path abnormally become findings with a model
 				switch res.Status {
-				case "panic", "deadlock":
+				case "panic", "deadlock", "budget":
 					w.eventFinding(hs, res, it.prefix)
 				case "exit":
 					if !i.allowExit {
@@ -369,6 +369,9 @@ func (p *Program) Explore(fns []*ssa.Function, cfgs []Config, opt ExploreOpts) (
 func (w *Worker) eventFinding(hs *HarnessStats, res PathResult, prefix []Decision) {
 	i := w.i
 	kind := res.Status
+	if kind == "budget" {
+		kind = "hang" // confirmed (or not) by the native replay under a watchdog
+	}
 	as := append([]*sym.Term{}, i.pc...)
 	r, tape, obs := i.solveModel(as)
 	f := Finding{Kind: kind, Label: kind, Msg: res.Msg, Harness: i.harness, Decs: res.Decisions,
